@@ -43,6 +43,10 @@ new="""        with open(cases, "w") as f:
         stage_cases(rep, work, b, cases, "replay", spec=doc.get("spec", "Trace_Load"), shards=1, jvms=1, env={"ASEVER_ALLOC_CAP": ALLOC_CAP})"""
 assert old in s, "replay block"
 s=s.replace(old,new,1)
+old='gen(b, hosts, "cel", seed + 57, 80 if tier == "quick" else 1500)'
+new='gen(b, hosts, "cel", seed + 57, 160 if tier == "quick" else 1500)'
+assert old in s
+s=s.replace(old,new,1)
 open(p,'w').write(s)
 PY
 bin/setup | tail -1
